@@ -12,6 +12,10 @@ CHECK = {
              # which of two tasks wins a lock that has just been released is decided by the Go runtime, so a failing
              # schedule need not fail again when rapid re-runs it; the verdict is a fact about the history that did happen
              flaky_is_violation=True),
+        unit("concurrent-first-use", "keysutil", ["keysutil/c17_policy_test.go", "keysutil/c17_conc_test.go"], "^TestVerif_C17_ConcurrentFirstUse$",
+             quick={"checks": 600, "shards": 1, "cap": 600},
+             thorough={"checks": 4000, "shards": 16, "cap": 1800},
+             flaky_is_violation=True),
         unit("transit-api", "transit", ["transit/c17_api_test.go"], "^TestVerif_C17_API$",
              quick={"checks": 800, "shards": 1, "cap": 600, "steps": 25},
              thorough={"checks": 1500, "shards": 16, "cap": 1800, "steps": 35}),
